@@ -19,7 +19,20 @@ pub struct Client {
     padding: Arc<PaddingFactory>,
     session_pool: Arc<SessionPool>,
     pool_config: SessionPoolConfig,
+    /// Verification hook: in-memory transport factory used instead of TCP+TLS
+    #[cfg(anytls_rs_verif)]
+    verif_connector: std::sync::Mutex<Option<VerifConnector>>,
 }
+
+/// Verification hook: produces the (reader, writer) halves of an established transport
+#[cfg(anytls_rs_verif)]
+pub type VerifConnector = Arc<
+    dyn Fn() -> (
+            Box<dyn tokio::io::AsyncRead + Send + Unpin>,
+            Box<dyn tokio::io::AsyncWrite + Send + Unpin>,
+        ) + Send
+        + Sync,
+>;
 
 impl Client {
     /// Create a new client with default session pool configuration
@@ -62,6 +75,8 @@ impl Client {
             padding,
             session_pool,
             pool_config,
+            #[cfg(anytls_rs_verif)]
+            verif_connector: std::sync::Mutex::new(None),
         }
     }
 
@@ -210,6 +225,13 @@ impl Client {
 
     /// Create a new session with the server
     async fn create_new_session(&self) -> Result<Arc<Session>> {
+        #[cfg(anytls_rs_verif)]
+        {
+            let connector = self.verif_connector.lock().unwrap().clone();
+            if let Some(connector) = connector {
+                return self.verif_create_new_session(connector).await;
+            }
+        }
         tracing::debug!("[Client] Creating new session to {}", self.server_addr);
 
         // Establish TCP connection
@@ -314,6 +336,48 @@ impl Client {
         // Store in pool
         self.session_pool.add_idle_session(session.clone()).await;
         tracing::debug!("[Client] Session added to pool");
+
+        Ok(session)
+    }
+
+    /// Verification hook: install (or remove) an in-memory connector. With a connector
+    /// `create_new_session` skips TCP+TLS and runs the same steps on the given transport.
+    #[cfg(anytls_rs_verif)]
+    pub fn verif_set_connector(&self, connector: Option<VerifConnector>) {
+        *self.verif_connector.lock().unwrap() = connector;
+    }
+
+    /// Verification hook: the session pool of this client
+    #[cfg(anytls_rs_verif)]
+    pub fn verif_session_pool(&self) -> Arc<SessionPool> {
+        Arc::clone(&self.session_pool)
+    }
+
+    /// Verification hook: `create_new_session` after the transport is established
+    /// (authentication, session construction, sequence number, start, pool insertion)
+    #[cfg(anytls_rs_verif)]
+    async fn verif_create_new_session(&self, connector: VerifConnector) -> Result<Arc<Session>> {
+        let (reader, mut writer) = connector();
+        send_authentication(&mut writer, &self.password_hash, &self.padding).await?;
+
+        let heartbeat_config = SessionHeartbeatConfig {
+            interval: self.pool_config.check_interval,
+            timeout: self.pool_config.idle_timeout,
+        };
+        let session = Arc::new(Session::new_client(
+            reader,
+            writer,
+            self.padding.clone(),
+            Some(heartbeat_config),
+        ));
+
+        static SEQ_COUNTER: std::sync::atomic::AtomicU64 = std::sync::atomic::AtomicU64::new(0);
+        let seq = SEQ_COUNTER.fetch_add(1, std::sync::atomic::Ordering::SeqCst);
+        session.set_seq(seq);
+
+        session.clone().start_client().await?;
+
+        self.session_pool.add_idle_session(session.clone()).await;
 
         Ok(session)
     }
